@@ -309,14 +309,19 @@ namespace Pistache
     {
         std::size_t end_pos   = data.find(']');
         std::size_t start_pos = data.find('[');
-        if (start_pos != std::string::npos && end_pos != std::string::npos && start_pos < end_pos)
+        if (start_pos != std::string::npos || end_pos != std::string::npos)
         {
-            std::size_t colon_pos = data.find_first_of(':', end_pos);
-            if (colon_pos != std::string::npos)
+            // "[" IPv6 "]" [ ":" port ], with nothing before the '[' and nothing
+            // between the ']' and the ':'
+            if (start_pos != 0 || end_pos == std::string::npos)
+                throw std::invalid_argument("Invalid address: misplaced bracket");
+            if (end_pos + 1 < data.size())
             {
+                if (data[end_pos + 1] != ':')
+                    throw std::invalid_argument("Invalid address: unexpected text after ']'");
                 hasColon_ = true;
             }
-            host_   = data.substr(start_pos, end_pos + 1);
+            host_   = data.substr(0, end_pos + 1);
             family_ = AF_INET6;
             ++end_pos;
         }
